@@ -1068,6 +1068,10 @@ func (e *Engine) loadRoot(st *State, a *addr) string {
 		return app("select", e.heap(st, hn, hs), a.ref)
 	case aElem:
 		hn, hs := e.vc.arrHeapName(a.rootT)
+		if a.idx == "" {
+			// the whole backing array (address of an array-typed local)
+			return app("select", e.heap(st, hn, hs), a.ref)
+		}
 		return app("select", app("select", e.heap(st, hn, hs), a.ref), a.idx)
 	case aGlob:
 		name := "glob_" + mangle(a.glob.String())
@@ -1085,6 +1089,10 @@ func (e *Engine) storeRoot(st *State, a *addr, v string) {
 	case aElem:
 		hn, hs := e.vc.arrHeapName(a.rootT)
 		h := e.heap(st, hn, hs)
+		if a.idx == "" {
+			e.setHeap(st, hn, hs, app("store", h, a.ref, v))
+			break
+		}
 		e.setHeap(st, hn, hs, app("store", h, a.ref, app("store", app("select", h, a.ref), a.idx, v)))
 	case aGlob:
 		name := "glob_" + mangle(a.glob.String())
